@@ -501,7 +501,7 @@ def fresh_process_lane(pid, tier, seed, agg, meta):
 
 def py_lane(pid, tier, seed, agg, meta, profiles=("debug", "release")):
     jlmon = O.build_lane("relchk")
-    count = {"quick": 400, "thorough": 40000}[tier]
+    count = {"quick": 4000 if pid == "C19" else 400, "thorough": 40000}[tier]
     cases = gen_texts(jlmon, pid, seed, count)
     pairs = [(c["rule"], c["data"]) for c in cases if "\x00" not in c["rule"] + c["data"] or True]
     for t in INVALID_TEXTS:
